@@ -148,7 +148,7 @@ def lineSpecViolation (prop : String) (cols : List LineSpec.Col) (input : Bytes)
       if !okOut then some "invalid-json-object"
       else if !okIn then some "accepted-invalid-input"
       else
-        let v := if prop == "C03" then LineSpec.orderViolation 8 cols inMs outMs false
+        let v := if prop == "C03" then LineSpec.orderViolation 8 cols (LineSpec.normDup inMs) outMs false
                  else LineSpec.classViolation 8 cols outMs
         match v with
         | none => none
